@@ -436,19 +436,19 @@ pub mod isqrt_dep {
     pub trait Roots: ::num_integer::Integer {
         fn sqrt(&self) -> Self;
     }
-    /// 64-bit arithmetic only (a 128-bit multiplier does not finish in CBMC)
+    /// under Kani the harness announces the root of the operand it constructed (x = s*s + d, 0 <= d <= 2s, so
+    /// s IS the integer square root of x); the ghost checks it is asked about exactly that operand
+    pub static mut EXPECTED_X: isize = 0;
+    pub static mut EXPECTED_S: isize = 0;
     #[cfg(kani)]
     fn floor_sqrt(x: isize) -> isize {
         assert!(x >= 0, "Roots::sqrt of a negative number panics");
-        let s: isize = kani::any();
-        kani::assume(s >= 0 && s <= 3037000499);
-        let sq = s * s;
-        kani::assume(sq <= x && x - sq <= 2 * s);
         unsafe {
+            assert!(x == EXPECTED_X, "the square root of another number is taken");
             SQRT_CALLS += 1;
-            SQRT_RESULT = s as i128;
+            SQRT_RESULT = EXPECTED_S as i128;
+            EXPECTED_S
         }
-        s
     }
     #[cfg(not(kani))]
     fn floor_sqrt(x: isize) -> isize {
